@@ -1,17 +1,23 @@
 #!/bin/bash
 # usage: seedrun.sh <patch.diff> <tier> <ID> [ID...]
-# Applies a seeded change to /repo, runs the named checks, and ALWAYS restores /repo afterwards.
-PATCH="$1"; TIER="$2"; shift 2
-cd /repo || exit 2
-if [ -n "$(git status --porcelain)" ]; then echo "/repo is not clean; refusing" >&2; exit 2; fi
-git apply "$PATCH" || { echo "patch does not apply" >&2; exit 2; }
-restore() { git -C /repo checkout -- . ; git -C /repo clean -fdq; }
-trap restore EXIT
+# Tries a seeded change WITHOUT touching /repo: a scratch worktree of /repo's HEAD gets the patch, the named
+# checks are built against it (VERIF_REPO) and write their evidence / replays to a scratch directory (VERIF_OUT).
+# The worktree and the scratch directory are removed afterwards. Prints one line per check.
+PATCH=$(readlink -f "$1"); TIER="$2"; shift 2
 export GOFLAGS=-mod=mod GOPROXY=off
-if ! (go build ./... && go build -tags verif ./...) 2>/tmp/seedrun.build; then echo "BUILD-FAILS"; cat /tmp/seedrun.build | head -5; exit 3; fi
+WT=$(mktemp -d /var/tmp/seedwt.XXXXXX); OUT=$(mktemp -d /var/tmp/seedout.XXXXXX)
+cleanup() { git -C /repo worktree remove --force "$WT" 2>/dev/null; rm -rf "$WT" "$OUT"; git -C /repo worktree prune; }
+trap cleanup EXIT
+rmdir "$WT"
+git -C /repo worktree add --detach "$WT" HEAD -q || exit 2
+# carry over uncommitted edits of /repo (normally none)
+git -C /repo diff | (cd "$WT" && git apply --allow-empty 2>/dev/null)
+(cd "$WT" && git apply "$PATCH") || { echo "patch does not apply" >&2; exit 2; }
+if ! (cd "$WT" && go build ./... && go build -tags verif ./...) 2>"$OUT/build.err"; then echo "BUILD-FAILS"; head -5 "$OUT/build.err"; exit 3; fi
 for ID in "$@"; do
-  out=$(cd /verif && ./run.sh "$ID" "$TIER" 2>&1); rc=$?
+  out=$(cd /verif && VERIF_REPO="$WT" VERIF_OUT="$OUT" ./run.sh "$ID" "$TIER" 2>&1); rc=$?
   v=$(printf '%s\n' "$out" | grep -c '^VIOLATION')
-  echo "== $ID rc=$rc violations_printed=$v"
+  echo "== $ID rc=$rc violations_printed=$v $(printf '%s\n' "$out" | grep -E "^$ID (quick|thorough):" | head -1)"
   printf '%s\n' "$out" | grep -A1 '^VIOLATION' | head -4
+  [ "$rc" -ge 2 ] && printf '%s\n' "$out" | tail -5
 done
